@@ -126,6 +126,18 @@ def threshold_cases(gen, first_id, rng, quick):
             {"order": "none"}, t)
         if b == 0:
             add("index", [{"nrows": t["nrows"], "cols": [col("u", "u64", "optional", n, 0, "linear"), col("s", "str", "optional", n, 0)]}], {"order": "none"}, t)
+    # a completely filled 65,536-row block (and one row short of it), directly and after a stacked merge
+    for t in [c for c in gen if c["what"] == "fullblock"]:
+        n, b = t["count"], t["block"]
+        if quick and n != 65536 and b == 1:
+            continue
+        tables = [{"nrows": t["nrows"], "cols": [col("f0_n", "u64", "optional" if b == 0 else "multi", n, b, "linear")]},
+                  {"nrows": t["merge_with"], "cols": [col("f0_n", "u64", "optional", 40, 0, "linear")]}]
+        add("columnar", tables, t["merge"], t)
+        if n == 65536 and (b == 0 or not quick):
+            tables = [{"nrows": t["nrows"], "cols": [col("u", "u64", "optional", n, b, "linear")]},
+                      {"nrows": t["merge_with"], "cols": [col("u", "u64", "optional", 40, 0, "linear")]}]
+            add("index", tables, t["merge"], t)
     for t in [c for c in gen if c["what"] == "thrmerge"]:
         n = sum(t["counts"])
         exact = t["variants"][2] == "dense" and n == min(sum(x["counts"]) for x in gen if x["what"] == "thrmerge" and x["variants"][2] == "dense")
